@@ -22,6 +22,7 @@ def run(ctx):
     outs = CH.abort_rows(ctx, "C11.R2")
     CH.wake_discipline(ctx, "C11.R2.wake", [("abort", outs), ("flush", CH.flush_rows(ctx, False)[1]), ("drop", CH.flush_rows(ctx, True)[1])])
     CH.end_stream_table(ctx, "C11.R3")
+    CH.eos_implies_end(ctx, "C11.R3.cross")
     ST.writer_delegation(ctx, "C11.R4")
     CH.consumer_drop(ctx, "C11.R5")
     CH.flush_reports_gone_consumer(ctx, "C11.R6")
